@@ -29,9 +29,9 @@ use std::sync::atomic::{AtomicU64, Ordering};
 use std::sync::Arc;
 use std::time::Duration;
 
-pub const RULE_C13: &str = "Each run draws one world from the tape (arch x86/amd64/arm/arm64, OS, 1-6 modules with shared leaf names and consistent / absent symbol files incl. CFI programs with aliased registers, 1-8 threads (occasionally 31-40, reaching FuturesUnordered) with frame-pointer chains / CFI-walkable / scan-only stacks, exception, thread names, unloaded modules, memory info, handles, Linux text streams incl. /proc/limits with several entries, MemoryList or Memory64List) and one processor option set, then executes the same world 3-6 times, each execution on a fresh thread with its own hash seed and its own schedule: per-module supplier delay (0-3 gates on the simulated clock) or HTTP chunking and latencies, executor policy, spurious-poll probability, 0-2 companion tasks processing the same dump through the same symbolizer; with the HTTP supplier, executions after the first alternate between a fresh cache and the run's shared, already filled cache (served-from-cache must render the same as downloaded); executions after the first may run on a thread that has already processed and rendered an unrelated 32- or 64-bit dump. Execution 0 is the plain schedule (everything ready, FIFO, hash seed 0). All executions must render byte-identical JSON, pretty JSON, text and brief text. NON-TRIVIAL iff the world has at least two threads and at least two executions had different decision traces. DISTINCT = distinct (world digest, multiset of execution decision traces) among non-trivial runs.";
+pub const RULE_C13: &str = "Each run draws one world from the tape (arch x86/amd64/arm/arm64, OS, 1-6 modules with shared leaf names, occasionally two modules with one debug identity under different file names, and consistent / absent symbol files incl. CFI programs with aliased registers, 1-8 threads (occasionally 31-40, reaching FuturesUnordered) with frame-pointer chains / CFI-walkable / scan-only stacks, exception, thread names, unloaded modules, memory info, handles (version 1 or version 2 descriptors with object-information chains), Linux text streams incl. /proc/limits with several entries, macOS crash-info records and boot args, MemoryList or Memory64List) and one processor option set, then executes the same world 3-6 times, each execution on a fresh thread with its own hash seed and its own schedule: per-module supplier delay (0-3 gates on the simulated clock) or HTTP chunking and latencies, executor policy, spurious-poll probability, 0-2 companion tasks processing the same dump through the same symbolizer; with the HTTP supplier, executions after the first alternate between a fresh cache and the run's shared, already filled cache (served-from-cache must render the same as downloaded); executions after the first may run on a thread that has already processed and rendered an unrelated 32- or 64-bit dump. Execution 0 is the plain schedule (everything ready, FIFO, hash seed 0). All executions must render byte-identical JSON, pretty JSON, text and brief text. NON-TRIVIAL iff the world has at least two threads and at least two executions had different decision traces. DISTINCT = distinct (world digest, multiset of execution decision traces) among non-trivial runs.";
 
-pub const RULE_C03: &str = "Each run draws one world as for C13 but with adversarial shapes enabled (cyclic / descending / extreme frame pointers, sp at 0 / 4 / 2^64-1 / outside the stack, stack at the top of the address space, CFI that makes no progress or never reads memory, hostile STACK WIN sizes, short /proc/limits lines, memory-info ranges ending at 2^64-1, exception parameters up to 15, code bytes at the crashing ip) and hostile symbol files (corrupted, random grammar, unterminated), one option set of {stable_basic, stable_all, unstable_all}, an optional storage fault on the serialised dump (torn tail, lost or stale 512/4096-byte sector, bit rot, header bit flip), symbol supply through the gated supplier or the real HTTP supplier with 404/5xx/connect error/reset/clean cut/stall+timeout/corrupt cache entry, and an optional companion task that is cancelled mid-way. Oracles: no panic; executor steps, provider calls and frames per thread within budgets tied to the input size; peak live heap within 256 MiB + (16 KiB x permitted frames + 4096 x input bytes) per concurrent processing; Ok state always renders as text, brief text, JSON and pretty JSON, the JSON parses, and rendering into a failing writer returns without panicking. NON-TRIVIAL iff the dump was accepted (processing returned a state) and at least one fault (storage, supply, hostile symbols, adversarial shape) was present. DISTINCT = distinct (world digest, fault description, decision trace) among non-trivial runs.";
+pub const RULE_C03: &str = "Each run draws one world as for C13 but with adversarial shapes enabled (cyclic / descending / extreme frame pointers, sp at 0 / 4 / 2^64-1 / outside the stack, stack at the top of the address space, CFI that makes no progress or never reads memory, hostile STACK WIN sizes, short /proc/limits lines, memory-info ranges ending at 2^64-1 or empty, exception parameters up to 15, code bytes at the crashing ip, handle object-information chains with unknown element types / cycles / links outside the file, macOS crash-info records with damaged counts, sizes, versions and strings, INLINE records at nesting level 2^32-1 / with a missing level / 48 levels deep / nested in themselves) and hostile symbol files (corrupted, random grammar, unterminated), one option set of {stable_basic, stable_all, unstable_all}, an optional storage fault on the serialised dump (torn tail, lost or stale 512/4096-byte sector, bit rot, header bit flip), symbol supply through the gated supplier or the real HTTP supplier with 404/5xx/connect error/reset/clean cut/stall+timeout/corrupt cache entry, and an optional companion task that is cancelled mid-way. Oracles: no panic; executor steps, provider calls and frames per thread within budgets tied to the input size; peak live heap within 256 MiB + (16 KiB x permitted frames x (1 + most INLINE records of one function) + 4096 x input bytes) per concurrent processing; Ok state always renders as text, brief text, JSON and pretty JSON, the JSON parses, and rendering into a failing writer returns without panicking. NON-TRIVIAL iff the dump was accepted (processing returned a state) and at least one fault (storage, supply, hostile symbols, adversarial shape) was present. DISTINCT = distinct (world digest, fault description, decision trace) among non-trivial runs.";
 
 // ---------------------------------------------------------------------------------------------
 // shared world data (Send: it crosses into sub-execution threads)
@@ -812,18 +812,86 @@ fn mask_same_leaf_stats(r: &Renderings, dups: &[String]) -> Option<(serde_json::
     Some((strip(&r.json)?, strip(&r.json_pretty)?, r.text.clone(), r.brief.clone()))
 }
 
-/// Classify a rendering mismatch.  The one listed known finding (statistics of same-named
-/// modules follow the completion order) gets its own fixed signature *only* when nothing else
-/// differs.
+/// File names (leaves) of modules that share their debug identity — and with it the symbol
+/// server path and the cache entry — with another module of the dump.
+fn twin_leaves(mods: &[ModSpec]) -> Vec<String> {
+    let mut seen: BTreeMap<String, u32> = BTreeMap::new();
+    for m in mods {
+        if let Some(r) = &m.rel {
+            *seen.entry(r.clone()).or_insert(0) += 1;
+        }
+    }
+    mods.iter()
+        .filter(|m| m.rel.as_ref().map(|r| seen.get(r).copied().unwrap_or(0) > 1).unwrap_or(false))
+        .map(|m| crate::common::leaf(&m.code_file).to_string())
+        .collect()
+}
+
+/// `symbol_url` of the twin modules removed (JSON renderings only).
+fn mask_twin_symbol_urls(r: &Renderings, twins: &[String]) -> Option<(serde_json::Value, serde_json::Value, Vec<u8>, Vec<u8>)> {
+    let strip = |bytes: &[u8]| -> Option<serde_json::Value> {
+        let mut v: serde_json::Value = serde_json::from_slice(bytes).ok()?;
+        if let Some(mods) = v.get_mut("modules").and_then(|m| m.as_array_mut()) {
+            for m in mods {
+                let is_twin = m.get("filename").and_then(|f| f.as_str()).map(|f| twins.iter().any(|d| d == f)).unwrap_or(false);
+                if is_twin {
+                    if let Some(o) = m.as_object_mut() {
+                        o.remove("symbol_url");
+                    }
+                }
+            }
+        }
+        Some(v)
+    };
+    Some((strip(&r.json)?, strip(&r.json_pretty)?, r.text.clone(), r.brief.clone()))
+}
+
+pub const SIG_SAME_LEAF: &str = "c13.same_leaf_symbol_stats";
+pub const SIG_TWIN_URL: &str = "c13.twin_modules_symbol_url";
+
+/// Classify a rendering mismatch.  The two listed known findings (statistics of same-named
+/// modules follow the completion order; the symbol URL of modules sharing one debug identity
+/// depends on whose download reached the cache first) get their own fixed signatures *only*
+/// when nothing else differs.
 fn mismatch_violation(oracle: &str, what: &str, mods: &[ModSpec], a: &Renderings, b: &Renderings) -> Violation {
     let dups = duplicate_leaves(mods);
-    if !dups.is_empty() && a.status == b.status {
-        if let (Some(x), Some(y)) = (mask_same_leaf_stats(a, &dups), mask_same_leaf_stats(b, &dups)) {
-            if x == y {
-                return Violation::new(
-                    "c13.same_leaf_symbol_stats",
-                    "two modules share a file name: the per-module symbol statistics in the JSON report (symbol_url / loaded / missing / corrupt, looked-up debug info) are those of whichever module's lookup finished last",
-                );
+    let twins = twin_leaves(mods);
+    let same_leaf = || {
+        Violation::new(
+            SIG_SAME_LEAF,
+            "two modules share a file name: the per-module symbol statistics in the JSON report (symbol_url / loaded / missing / corrupt, looked-up debug info) are those of whichever module's lookup finished last",
+        )
+    };
+    if a.status == b.status {
+        if !dups.is_empty() {
+            if let (Some(x), Some(y)) = (mask_same_leaf_stats(a, &dups), mask_same_leaf_stats(b, &dups)) {
+                if x == y {
+                    return same_leaf();
+                }
+            }
+        }
+        if !twins.is_empty() {
+            if let (Some(x), Some(y)) = (mask_twin_symbol_urls(a, &twins), mask_twin_symbol_urls(b, &twins)) {
+                if x == y {
+                    return Violation::new(
+                        SIG_TWIN_URL,
+                        "two modules share one debug identity (one symbol-server path, one cache entry) under different file names: over HTTP the symbol_url reported for each is the request URL of whichever module's download put the entry into the cache, or its own when it downloaded itself",
+                    );
+                }
+                // both findings in one run
+                if !dups.is_empty() {
+                    let both = |r: &Renderings| -> Option<(serde_json::Value, serde_json::Value)> {
+                        let (j, p, _, _) = mask_twin_symbol_urls(r, &twins)?;
+                        let again = Renderings { status: r.status.clone(), json: serde_json::to_vec(&j).ok()?, json_pretty: serde_json::to_vec(&p).ok()?, text: r.text.clone(), brief: r.brief.clone() };
+                        let (j2, p2, _, _) = mask_same_leaf_stats(&again, &dups)?;
+                        Some((j2, p2))
+                    };
+                    if let (Some(x), Some(y)) = (both(a), both(b)) {
+                        if x == y && a.text == b.text && a.brief == b.brief {
+                            return same_leaf();
+                        }
+                    }
+                }
             }
         }
     }
@@ -904,13 +972,16 @@ pub fn run_c03() -> Outcome {
     // serde_json tree (measured: up to ~10 KB of peak heap per frame). The budget therefore has
     // a per-permitted-frame term; the per-input-byte term covers symbols and streams. The point
     // is to catch memory demanded out of proportion to the input.
+    // Every physical frame may expand into 1 + k reported frames, k = the inline records of its
+    // function: the per-frame term is multiplied by the largest such 1 + k of the world's symbols.
+    let inline_factor = world.modules.iter().map(|m| m.sym.as_deref().map(max_inlines_per_func).unwrap_or(0)).max().unwrap_or(0) as isize + 1;
     let mem_budget: isize = (256 << 20)
-        + (1 + companions as isize) * (16 * 1024 * stack_budget as isize + 4096 * (world.dump.len() + sym_total) as isize);
+        + (1 + companions as isize) * (16 * 1024 * stack_budget as isize * inline_factor + 4096 * (world.dump.len() + sym_total) as isize);
     // hard cap: a runaway allocation aborts the worker, the supervisor attributes it to this run
     let sh = shared.clone();
     let verbose = simkit::with_ctx(|c| c.verbose);
     let rep = simkit::runner::run_sub_nested("c03.exec", 0, false, verbose, move || {
-        simkit::alloc::set_cap(4usize << 30);
+        simkit::alloc::set_cap(3usize << 30);
         execute(sh, ExecMode { faults: true, companions, use_warm_cache: false, previous_job: 0 }, stack_budget, nthreads)
     });
     for (k, v) in &rep.probes {
@@ -958,7 +1029,7 @@ pub fn run_c03() -> Outcome {
             simkit::ensure!(n as u64 <= bound, "c03.frame_bound", "a thread was walked for more frames than its stack memory has bytes (plus two)");
         }
         // 4. memory budget
-        simkit::ensure!(out.peak_bytes <= mem_budget, "c03.memory_budget", "peak live heap exceeded 256 MiB + (16 KiB x permitted frames + 4096 x input bytes) per concurrent processing");
+        simkit::ensure!(out.peak_bytes <= mem_budget, "c03.memory_budget", "peak live heap exceeded 256 MiB + (16 KiB x permitted frames x (1 + inline records per function) + 4096 x input bytes) per concurrent processing");
         Ok(())
     })();
     if accepted {
@@ -1003,6 +1074,21 @@ fn region_bound(world: &World, t: &dumpgen::ThreadSpec) -> u64 {
 }
 
 /// (sum of usable stack bytes, thread count, largest memory region) of the dump as parsed.
+/// Upper bound on the inline frames one physical frame can expand into: the largest number of
+/// INLINE lines between two FUNC lines (whatever the parser makes of them).
+fn max_inlines_per_func(sym: &[u8]) -> usize {
+    let (mut best, mut cur) = (0usize, 0usize);
+    for line in sym.split(|&b| b == b'\n') {
+        if line.starts_with(b"INLINE ") {
+            cur += 1;
+            best = best.max(cur);
+        } else if line.starts_with(b"FUNC ") {
+            cur = 0;
+        }
+    }
+    best
+}
+
 fn measure(bytes: &[u8], world: &World) -> (u64, u64, u64) {
     let mut total = world.total_stack_bytes;
     let mut n = world.threads.len() as u64;
@@ -1103,7 +1189,7 @@ pub fn run_c12_pipeline() -> Outcome {
                 let v = mismatch_violation("c12.requesters_disagree", "walkers that asked for a module while its lookup was suspended ended with a different result than with a supplier that answers at once", &shared.modules, &reference.outputs[0], c);
                 // the per-module statistics of two modules sharing a file name are C13's listed
                 // finding and say nothing about what a requester observed
-                if v.oracle == "c13.same_leaf_symbol_stats" {
+                if v.oracle == SIG_SAME_LEAF || v.oracle == SIG_TWIN_URL {
                     probe("e2.pipeline_same_leaf_masked");
                     continue;
                 }
